@@ -334,12 +334,12 @@ def Sess.answers (s : Sess) : Nat → Resp := fun i => (s.stream.getD []).getD i
 def Sess.reset (s : Sess) : Sess :=
   { s with bus := s.bus0, pos := 0, diverged := none, trace := [] }
 
-/-- feed a command to the environment -/
-def Sess.feed (s : Sess) (c : Cmd) : Resp × Sess :=
+/-- feed a command to the environment; `tw` = the command object's `sendtwice` flag -/
+def Sess.feed (s : Sess) (c : Cmd) (tw : Bool := c.twiceRequired) : Resp × Sess :=
   match s.stream with
   | some _ => (s.answers s.pos, { s with pos := s.pos + 1, trace := c :: s.trace })
   | none =>
-    let (r, b') := Bus.exec s.bus c
+    let (r, b') := Bus.execFlagged s.bus c tw
     (r, { s with bus := b', trace := c :: s.trace })
 
 def Sess.diverge (s : Sess) (msg : String) : Sess :=
@@ -368,22 +368,23 @@ def handle1 (s : Sess) : List String → String × Sess
     (match parseScen rest with
      | some sc => ("ok", { s.reset with scen := some sc, prog := sc.prog })
      | none => ("bad-op", s))
-  | ["cmd", fr, cls, dt] =>
-    (match parseNat? fr, parseNat? dt with
-     | some fr, some dt =>
+  | "cmd" :: fr :: cls :: dt :: twl =>
+    (match parseNat? fr, parseNat? dt, (match twl with | [] => some none | ["0"] => some (some false)
+                                                       | ["1"] => some (some true) | _ => none) with
+     | some fr, some dt, some tw? =>
        (match decodeCmd fr cls dt with
         | some c =>
           let s := match s.diverged, s.prog with
             | none, .send c' _ => if c' = c then s else s.diverge s!"expected={fmtCmd c'},got={fmtCmd c}"
             | none, p => s.diverge s!"expected={expected p},got={fmtCmd c}"
             | some _, _ => s
-          let (r, s') := s.feed c
+          let (r, s') := s.feed c (tw?.getD c.twiceRequired)
           let s' := match s'.diverged, s'.prog with
             | none, .send _ k => { s' with prog := k r }
             | _, _ => s'
           (fmtResp r, s')
         | none => ("bad-op", s))
-     | _, _ => ("bad-op", s))
+     | _, _, _ => ("bad-op", s))
   | ["note", kind] =>
     let n? : Option Note := if kind == "progress" then some .progress
                             else if kind == "sleep" then some .sleep else none
